@@ -274,3 +274,17 @@ Proof.
   - unfold r_inc, sats. destruct (mapM (fun rc => rmap truthy (eval_rowfn f rc)) (recs r)) as [keep|e] eqn:M; cbn [bind]; [|discriminate].
     intros H. inversion H; subst. cbn [cols recs]. rewrite (mapM_kept _ _ _ M), bind_Ok. rewrite (kept_combine_map (fun _ => true)), filter_true. reflexivity.
 Qed.
+
+(* one_or_none on the concrete model = on the records *)
+Lemma ref_one_or_none c q : Rect c -> r_one_or_none (abs c) q = c_one_or_none c q.
+Proof.
+  intros R. unfold r_one_or_none, c_one_or_none. rewrite (ref_inc c q R). destruct (c_inc c q) as [res|e] eqn:I; cbn [rmap bind]; [|reflexivity].
+  assert (Rr : Rect res) by (eapply rect_inc; eassumption). cbn [recs abs].
+  assert (L : len (c_iter res) = tlen res) by (rewrite iter_length, tlen_rect by assumption; reflexivity).
+  pose proof (iter_rect res Rr) as IR. rewrite <- tlen_rect in IR by assumption.
+  destruct (c_iter res) as [|x [|y l]] eqn:E; cbn [len] in L; rewrite <- L.
+  - reflexivity.
+  - cbn [Nat.ltb Nat.leb Nat.eqb]. assert (N : res <> []) by (intros ->; discriminate).
+    rewrite getrow_cases by assumption. rewrite <- tlen_rect, <- L by assumption. cbn. rewrite <- L in IR. cbn in IR. inversion IR. reflexivity.
+  - reflexivity.
+Qed.
